@@ -66,6 +66,7 @@ def check(ck):
         bake_pipeline(ck, repo)
     with ck.rule("R3"):
         _clauses(ck, repo)
+        interface_field_type_table(ck, repo, side="refuse")
     with ck.rule("R4"):
         _redefinitions(ck, repo)
 
@@ -445,3 +446,62 @@ def bake_pipeline(ck, repo):
 
 def sc_methods(repo):
     return repo.cls(SCH, "GraphQLSchema").methods
+
+
+def interface_field_type_table(ck, repo, side="both"):
+    """IsValidImplementationFieldType (spec 3.6.3) as a path-outcome table of _validate_field_type_is_same_as_interface_type(field, iface):
+    equal -> yes; a non-null field is judged by what it wraps, *whatever the interface type is* ([T]! implements [T], T! implements T);
+    only then does a wrapped interface type refuse; a named interface type accepts its possible types.
+    side: 'accept' = the clauses a valid SDL relies on (C11), 'refuse' = those an invalid one must trip (C12)."""
+    from ..pathtab import outcome_rows, truth, instance_fact
+    f = repo.func(SCH, "GraphQLSchema._validate_field_type_is_same_as_interface_type")
+    fv = FuncView(f)
+    _, ft, it = f.positional_params
+    rows = outcome_rows(fv)
+    if not rows:
+        raise AnalysisError(f"{f.qualname}: no path found")
+    n = 0
+    for r in rows:
+        if r["exit"] != "return_exit" or r["ret"] is None:
+            ck.ob(f"{f.name}: every path answers yes or no", False, f, r["last"] or f.node, construct="iface-type:answers")
+            continue
+        n += 1
+        eq = truth(r, f"{ft} == {it}") or truth(r, f"{it} == {ft}")
+        fnn = instance_fact(r, ft, "GraphQLNonNull")
+        inn = instance_fact(r, it, "GraphQLNonNull")
+        ils = instance_fact(r, it, "GraphQLList")
+        ret = r["ret"]
+        txt = unparse(ret)
+        kind = "OTHER"
+        if isinstance(ret, ast.Constant) and ret.value is True:
+            kind = "YES"
+        elif isinstance(ret, ast.Constant) and ret.value is False:
+            kind = "NO"
+        elif isinstance(ret, ast.Call) and callee_last(ret) == f.name:
+            kind = "UNWRAP"
+        elif "is_possible_type" in txt:
+            kind = "POSSIBLE"
+        where = r["last"] or f.node
+        if side in ("both", "accept"):
+            if eq == "T":
+                ck.ob(f"{f.name}: equal types conform", kind == "YES", f, where, construct="iface-type:equal")
+            if kind in ("NO", "POSSIBLE"):
+                ck.ob(f"{f.name}: a field type is refused (or looked up by name) only after its own non-null wrapper was considered: [T]! implements [T]",
+                      fnn == "F", f, where, construct="iface-type:nonnull-first",
+                      detail=f"path {[(c, o) for c, o in r['conds']]} ends in `return {txt}` without having tested isinstance({ft}, GraphQLNonNull)")
+            if fnn == "T" and eq != "T":
+                ok = kind == "UNWRAP" and [unparse(a) for a in ret.args] == [f"{ft}.gql_type", it] and not ret.keywords
+                ck.ob(f"{f.name}: a non-null field type is judged by the type it wraps against the same interface type", ok, f, where, construct="iface-type:unwrap")
+            if kind == "POSSIBLE":
+                want = f"self.type_definitions[{it}].is_possible_type({ft})"
+                lookup = f"isinstance(self.type_definitions[{it}], GraphQLInterfaceType)"
+                ok = (txt == want and truth(r, lookup) == "T") or txt == f"{lookup} and {want}"
+                ck.ob(f"{f.name}: a named interface type accepts exactly its possible types", ok and inn == "F" and ils == "F", f, where, construct="iface-type:possible", detail=txt)
+        if side in ("both", "refuse"):
+            if kind == "YES":
+                ck.ob(f"{f.name}: only equal types conform outright", eq == "T", f, where, construct="iface-type:yes-only-equal")
+            if eq == "F" and fnn == "F" and ("T" in (inn, ils) or "MAYBE" in (inn, ils)):
+                ck.ob(f"{f.name}: a wrapped interface type refuses every other field type", kind == "NO", f, where, construct="iface-type:wrapped-refuses", detail=txt)
+            if kind == "OTHER":
+                ck.ob(f"{f.name}: the answer is yes, no, the wrapped type's answer or the interface's possible types", False, f, where, construct="iface-type:answer-kind", detail=txt)
+    ck.count("interface_field_type_paths", n, 3)
